@@ -10,7 +10,8 @@ def plan(tier, seed):
     t = 120 if tier == "quick" else 400
     envc = dict(VERIF_CATS=1)
     jobs = [ch("C04", F, "h_cat_stats", t, wc_lattice.FUN, env=envc),
-            ch("C04", F, "h_cat_stats_rest", t, wc_lattice.FUN, env=envc)]
+            ch("C04", F, "h_cat_stats_rest", t, wc_lattice.FUN, env=envc),
+            ch("C04", F, "h_cat_stats_nulls", t, wc_lattice.FUN, env=envc)]
     wc = wc_lattice.jobs("C04", tier)
     jobs += wc if tier == "thorough" else [j for j in wc if "null=1" in j["name"]][:5]
     try:
